@@ -89,7 +89,7 @@ Qed.
 Lemma itt_mono a b : a <= b -> int_to_target a <= int_to_target b.
 Proof.
   unfold int_to_target, maxT, M256. intros Hadj.
-  destruct (Z.leb_spec (2 ^ 255) a); destruct (Z.leb_spec (2 ^ 255) b); lia.
+  destruct (Z.leb_spec (2 ^ 256) a); destruct (Z.leb_spec (2 ^ 256) b); lia.
 Qed.
 
 Theorem oak_clamp net s ts tt r : 0 <= p_child_target s ->
@@ -115,6 +115,28 @@ Proof.
     destruct (Z.compare_spec (int_to_target (p_child_target s * 1004 / 1000)) NT) as [A|A|A];
     destruct (Z.compare_spec (int_to_target (p_child_target s * 1000 / 1004)) NT) as [B|B|B]; simpl in C1, C2; try discriminate;
     clear - A B Hm; split; try (rewrite <- ?A, <- ?B; first [apply Z.le_refl|exact Hm]); try (apply Z.lt_le_incl; assumption); try (rewrite <- A; apply Z.le_refl); try (rewrite B; apply Z.le_refl).
+Qed.
+
+
+(* int_to_target is min(., maxT) on non-negative values: saturation never moves a target upwards, and a target that
+   fits is kept *)
+Lemma itt_min x : 0 <= x -> int_to_target x = Z.min x maxT.
+Proof. unfold int_to_target, maxT, M256. intros Hx. destruct (Z.leb_spec (2 ^ 256) x); lia. Qed.
+
+(* the clamp itself, with no saturation left in the statement: for every representable target, the next target is
+   between t*1000/1004 and t*1004/1000 (and never above the maximum) *)
+Theorem oak_clamp_exact net s ts tt r : 0 <= p_child_target s <= maxT ->
+  n_oak_height net < child_height s -> child_height s <> n_asic_height net ->
+  adjust_target net s ts tt = Ok r ->
+  p_child_target s * 1000 / 1004 <= r <= p_child_target s * 1004 / 1000 /\ r <= maxT.
+Proof.
+  intros [Ht Hm] Hh Hn E. destruct (oak_clamp net s ts tt r Ht Hh Hn E) as [L U].
+  set (T := p_child_target s) in *.
+  assert (A : 0 <= T * 1000 / 1004) by (apply Z.div_pos; lia).
+  assert (B : 0 <= T * 1004 / 1000) by (apply Z.div_pos; lia).
+  rewrite (itt_min _ A) in L. rewrite (itt_min _ B) in U.
+  assert (C : T * 1000 / 1004 <= T) by (apply Z.div_le_upper_bound; lia).
+  lia.
 Qed.
 
 (* before the Oak fork: unchanged except every 500 blocks *)
